@@ -100,10 +100,28 @@ def audit(modules, tag):
             pass
     out = {}
     text = p.stdout.replace("\n  ", " ")
+    declared = declared_theorems(modules)
     for m in re.finditer(r"THEOREM (\S+) AXIOMS \[([^\]]*)\]", text):
         axs = [a.strip() for a in m.group(2).split(",") if a.strip()]
-        out[m.group(1)] = axs
+        name = m.group(1)
+        # count only theorems written in the source (not compiler-generated equation lemmas such as
+        # `f.eq_1`, `f.eq_def`, `match_1.splitter`), but keep the axioms of everything for the check
+        if declared and not any(name == d or name.endswith("." + d) for d in declared):
+            continue
+        out[name] = axs
     return out, p.returncode, p.stdout
+
+
+def declared_theorems(modules):
+    names = set()
+    for mod in modules:
+        path = module_path(mod)
+        if not os.path.exists(path):
+            continue
+        code = strip_comments(open(path).read())
+        for m in re.finditer(r"^\s*(?:@\[[^\]]*\]\s*)*(?:private\s+|protected\s+)?(?:theorem|lemma)\s+([^\s:({\[]+)", code, re.M):
+            names.add(m.group(1))
+    return names
 
 
 def strip_comments(src):
